@@ -24,13 +24,19 @@ import (
 
 	"github.com/onsi/gomega"
 	"github.com/synnaxlabs/cesium"
+	"github.com/synnaxlabs/freighter"
+	"github.com/synnaxlabs/synnax/pkg/distribution"
 	"github.com/synnaxlabs/synnax/pkg/distribution/channel"
 	"github.com/synnaxlabs/synnax/pkg/distribution/framer"
+	"github.com/synnaxlabs/synnax/pkg/distribution/framer/deleter"
 	"github.com/synnaxlabs/synnax/pkg/distribution/framer/frame"
 	"github.com/synnaxlabs/synnax/pkg/distribution/framer/iterator"
+	"github.com/synnaxlabs/synnax/pkg/distribution/framer/relay"
 	"github.com/synnaxlabs/synnax/pkg/distribution/framer/writer"
 	"github.com/synnaxlabs/synnax/pkg/distribution/mock"
 	"github.com/synnaxlabs/synnax/pkg/distribution/node"
+	tmock "github.com/synnaxlabs/synnax/pkg/distribution/transport/mock"
+	"github.com/synnaxlabs/x/address"
 	xfs "github.com/synnaxlabs/x/io/fs"
 	"github.com/synnaxlabs/x/telem"
 )
@@ -56,7 +62,10 @@ type sop struct {
 	Bogus []uint32 `json:"bogus"` // literal extra keys (unknown channels)
 	Start int64    `json:"start"`
 	Auto  bool     `json:"auto"`
-	Cols  []col    `json:"cols"`
+	// open: while this writer is opened, node Gw's writer transport client cannot reach node Cut
+	// (0 = no fault): a stream to that node fails with errUnreachable
+	Cut  uint32 `json:"cut"`
+	Cols []col  `json:"cols"`
 	// write: key mask applied to the frame before it is written (Frame.KeepKeys / ExcludeKeys):
 	// "keep" | "exclude" | "" ; MaskNames are channel names
 	Mask      string   `json:"mask"`
@@ -133,6 +142,8 @@ func classify(err error) string {
 	}
 	s := err.Error()
 	switch {
+	case strings.Contains(s, "verif: peer unreachable"):
+		return "unreachable"
 	case strings.Contains(s, "missing channels"), strings.Contains(s, "hannels with keys") && strings.Contains(s, "not found"):
 		return "missing"
 	case strings.Contains(s, "cannot read from free channel"):
@@ -340,9 +351,69 @@ type wpair struct {
 	keys []uint32
 }
 
+// framerTransport is a framer transport assembled from the stock in-memory networks, so that the
+// harness can put a middleware on each node's writer client.
+type framerTransport struct {
+	iter    iterator.Transport
+	writer  writer.Transport
+	relay   relay.Transport
+	deleter deleter.Transport
+}
+
+var _ framer.Transport = framerTransport{}
+
+func (d framerTransport) Iterator() iterator.Transport { return d.iter }
+func (d framerTransport) Writer() writer.Transport     { return d.writer }
+func (d framerTransport) Relay() relay.Transport       { return d.relay }
+func (d framerTransport) Deleter() deleter.Transport   { return d.deleter }
+
+var errUnreachable = fmt.Errorf("verif: peer unreachable")
+
+// faultyCluster is the mock cluster with one addition: blocked[g] holds the address that writer
+// streams dialed from node g cannot reach at the moment ("" = all reachable).
+type faultyCluster struct {
+	*mock.Cluster
+	addrs   map[uint32]address.Address
+	blocked map[uint32]*atomic.Value
+}
+
+func provisionFaulty(n int) *faultyCluster {
+	fc := &faultyCluster{Cluster: mock.NewCluster(), addrs: map[uint32]address.Address{}, blocked: map[uint32]*atomic.Value{}}
+	var (
+		addrs     = address.NewLocalFactory(0) // the same sequence the mock cluster hands out
+		iterNet   = tmock.NewIteratorNetwork()
+		writerNet = tmock.NewWriterNetwork()
+		relayNet  = tmock.NewRelayNetwork()
+		deleteNet = tmock.NewDeleterNetwork()
+	)
+	for i := 1; i <= n; i++ {
+		addr := addrs.Next()
+		b := &atomic.Value{}
+		b.Store(address.Address(""))
+		wt := writerNet.New(addr, 1)
+		wt.Client().Use(freighter.MiddlewareFunc(func(fCtx freighter.Context, next freighter.Next) (freighter.Context, error) {
+			if t := b.Load().(address.Address); t != "" && fCtx.Target == t {
+				return fCtx, errUnreachable
+			}
+			return next(fCtx)
+		}))
+		nd := fc.Provision(ctx, distribution.LayerConfig{FrameTransport: framerTransport{
+			iter: iterNet.New(addr, 1), writer: wt, relay: relayNet.New(addr, 1), deleter: deleteNet.New(addr),
+		}})
+		if nd.Cluster.Host().Address != addr {
+			panic(fmt.Sprintf("node %v advertises %v, the harness expected %v", nd.Cluster.HostKey(), nd.Cluster.Host().Address, addr))
+		}
+		k := uint32(nd.Cluster.HostKey())
+		fc.addrs[k] = addr
+		fc.blocked[k] = b
+	}
+	return fc
+}
+
 func runCluster(c tcase) (res result) {
 	res.ID = c.ID
-	cl := mock.ProvisionCluster(ctx, c.Nodes)
+	fc := provisionFaulty(c.Nodes)
+	cl := fc.Cluster
 	defer func() { _ = cl.Close() }()
 	ref, err := cesium.Open(ctx, "", cesium.WithFS(xfs.NewMem()))
 	if err != nil {
@@ -427,12 +498,23 @@ func runCluster(c tcase) (res result) {
 			keys := resolve(o.Chans, o.Bogus)
 			out.Keys = keys
 			auto := o.Auto
+			if b := fc.blocked[o.Gw]; o.Cut != 0 && b != nil {
+				b.Store(fc.addrs[o.Cut])
+			}
 			w, err := cl.Nodes[node.Key(o.Gw)].Framer.OpenWriter(ctx, framer.WriterConfig{
 				Keys: channel.KeysFromUint32(keys), Start: telem.TimeStamp(o.Start), EnableAutoCommit: &auto,
 			})
+			if b := fc.blocked[o.Gw]; b != nil {
+				b.Store(address.Address(""))
+			}
 			out.Err = classify(err)
 			if err != nil {
 				out.Text = err.Error()
+				if out.Err == "unreachable" && !c.NoSettle {
+					// the peers dialed before the unreachable one close their storage writers
+					// asynchronously once the gateway has closed their streams
+					waitReleased(cl, keys)
+				}
 				break
 			}
 			refKeys := []uint32{}
